@@ -187,11 +187,18 @@ def run_symbolic(unit, z3_ms=10000, cvc5_ms=20000, both=False, exclude_contracts
         out['covers'] = sorted(res.covers)
         out['lemmas_used'] = list(res.lemmas_used)
         ts = 0.0
+        # wall-clock budget for discharging one unit: on a changed tree many obligations can turn hard at once (each then costs the full z3 +
+        # cvc5 budget, and more for the second attempt below); past the budget the remaining ones are left unattempted (reported undecided)
+        t_dis, cap, retried = time.time(), max(30 * z3_ms / 1000.0, 300.0), 0
         for o in res.obligs:
-            engine.discharge(o, z3_ms, cvc5_ms, both)
-            if o.status == 'unknown' and ('%s/%s' % (unit.name, o.label)) in engine.BASELINE:
-                # discharged on the unchanged tree: before it is reported as failing, rule out a solver budget effect
-                engine.discharge(o, z3_ms * 4, cvc5_ms * 2, False)
+            if time.time() - t_dis > cap:
+                o.status, o.solver, o.detail = 'skipped', 'none', 'not attempted: the time budget of this unit (%d s) was used up by earlier obligations' % cap
+            else:
+                engine.discharge(o, z3_ms, cvc5_ms, both)
+                if o.status == 'unknown' and retried < 4 and ('%s/%s' % (unit.name, o.label)) in engine.BASELINE:
+                    # discharged on the unchanged tree: before it is reported as failing, rule out a solver budget effect
+                    retried += 1
+                    engine.discharge(o, z3_ms * 4, cvc5_ms * 2, False)
             ts += o.secs
             out['obligations'].append({'label': o.label, 'status': o.status, 'solver': o.solver, 'secs': round(o.secs, 4),
                                        'model': o.model, 'ghost': getattr(o, 'ghost', None), 'kind': o.meta.get('kind', 'post'), 'detail': o.detail,
